@@ -9,7 +9,9 @@
    those; the table after a *successful* parse is modelled exactly, including the io.EOF
    paths that count as success ("a=", "a.", "a[0]").  After the fix "--set keeps an empty
    value that ends the input after a list index": when the input ends inside a list item
-   ("a[0].b=", "a[0][1].b=") what was parsed is stored before io.EOF is passed on.
+   ("a[0].b=", "a[0][1].b=") what was parsed is stored before io.EOF is passed on.  After
+   the fix "strvals counts list items as nesting levels" (C20): "[" and "." read by listItem
+   increment the nesting level and fail above MaxNestedNameLevel, like "." read by key.
 
    Outside the model (supplied with the case as data): the JSON decoder behind --set-json
    ([jdec]: for the input that remains after "key=", the decoded value and the number of
@@ -343,6 +345,8 @@ with list_item (f : nat) (c : pcfg) (l : list val) (i : Z) (lvl : nat) (s : stri
                   | VErr => LErr
                   end
                 else if ch_eq ch c_lbr then
+                  if Nat.ltb max_nested_name_level (S lvl) then LErr     (* a nested list counts as a level *)
+                  else
                   match key_index (negb lit) rest with
                   | None => LErr
                   | Some (nexti, rest1) =>
@@ -355,7 +359,7 @@ with list_item (f : nat) (c : pcfg) (l : list val) (i : Z) (lvl : nat) (s : stri
                              else Some ([], false)) with
                       | None => LErr
                       | Some (crt, existed) =>
-                          match list_item f' c crt nexti lvl rest1 with
+                          match list_item f' c crt nexti (S lvl) rest1 with
                           | LOk l2 rest2 => match set_index l i (VList l2) with Some l' => LOk l' rest2 | None => LErr end
                           | LEof l2 =>
                               match l2 with
@@ -369,6 +373,8 @@ with list_item (f : nat) (c : pcfg) (l : list val) (i : Z) (lvl : nat) (s : stri
                       end
                   end
                 else (* '.' *)
+                  if Nat.ltb max_nested_name_level (S lvl) then LErr     (* the '.' read here counts as a level *)
+                  else
                   let '(l1, inner, inplace) :=
                     if in_range l i
                     then match nth_val i l with
@@ -376,7 +382,7 @@ with list_item (f : nat) (c : pcfg) (l : list val) (i : Z) (lvl : nat) (s : stri
                          | _ => (set_nth (Z.to_nat i) (VMap []) l, [], true)   (* "indices out of order" *)
                          end
                     else (l, [], false) in
-                  match key f' c inner lvl rest with
+                  match key f' c inner (S lvl) rest with
                   | KOk inner' rest1 => match set_index l1 i (VMap inner') with Some l' => LOk l' rest1 | None => LErr end
                   | KEof inner' =>
                       match inner' with
